@@ -53,7 +53,9 @@ NMsgReports(r) == Cardinality({k \in 1..Len(r.rep) : r.rep[k] \in MsgReports})
 C01_Table(r, stopped) ==
    LET p == r.pst  c == r.cls IN
    CASE c = "TICK" -> Ignored(r)
-     [] c = "BOOT" -> p = "IDLE" => (r.st = "CONNECT" /\ r.att = 1 /\ r.out = <<>>)
+     \* the start-up AutomaticStart: connects from Idle unless the operator has stopped the peer before; ignored in every
+     \* other state (RFC 4271 8.2.2: start events are ignored outside Idle)
+     [] c = "BOOT" -> IF p = "IDLE" /\ ~stopped THEN (r.st = "CONNECT" /\ r.att = 1 /\ r.out = <<>>) ELSE Ignored(r) /\ r.att = 0
      [] c = "START" -> IF p = "IDLE" THEN (r.plive = 0 => (r.st = "CONNECT" /\ r.att = 1 /\ r.out = <<>>)) ELSE Ignored(r)
      [] c = "STOP" ->
          (CASE p = "ESTABLISHED" -> IsErr(r, 6, -1)
@@ -180,6 +182,9 @@ C10_BadUpdate(r) ==
    /\ (r.cls = "FUZZ_UPD" /\ Live(r) /\ r.pst = "ESTABLISHED" /\ r.flen >= 23 /\ r.flen <= 4096) =>
          (r.st = "ESTABLISHED" /\ Quiet(r))
 \* ... and never changes how the messages after it are decoded: the known-good probe decodes as on a fresh agent
+\* the same frame delivered a second time is handled like the first time (nothing learnt from a malformed message changes
+\* how later messages are decoded); rptsame is recorded by the harness: same reports, same messages written, same state
+C10_Repeat(r) == r.rptsame
 C10_Probe(r) == r.cls = "PROBE" => (r.probeok /\ InSeq("update_received", r.rep) /\ r.st = "ESTABLISHED" /\ Quiet(r))
 C10_After(r, stopped) ==     \* after any input: still in session, or closed cleanly with the reconnect scheduled
    r.cls \in PeerMsg => (r.st \in Session \/ stopped \/ r.pend > 0)
@@ -306,6 +311,7 @@ Check(mon, r) ==
    /\ Chk("C10", r, "C10.onereport", C10_OneReport(r), r.rep)
    /\ Chk("C10", r, "C10.badupdate", C10_BadUpdate(r), r.rep)
    /\ Chk("C10", r, "C10.probe", C10_Probe(r), <<>>)
+   /\ Chk("C10", r, "C10.repeat", C10_Repeat(r), r.rep)
    /\ Chk("C05", r, "C05.accept", C05_Accept(r), <<r.acc, r.esub, OutTypes(r)>>)
    /\ Chk("C05", r, "C05.asmode", C05_AsMode(r), r.rep)
    /\ Chk("C10", r, "C10.after", C10_After(r, stp \/ r.cls = "STOP"), <<>>)
